@@ -1,4 +1,4 @@
-import RosuModel.Lemmas.OsuSkillFl
+import RosuModel.Lemmas.OsuSkillRhythm
 import RosuModel.Lemmas.StrainSkeleton
 import RosuModel.Gen.PerfConsts
 
@@ -40,7 +40,11 @@ theorem set_distances_order_as_modelled :
 
 /-- module constants and numeric literals (source order) of the code `Model/OsuSkill.lean` transcribes -/
 theorem osu_object_literals_as_modelled : osuObjectLiterals = [
+  ("const NORMALIZED_RADIUS", ["50"]),
+  ("const NORMALIZED_DIAMETER", ["Self::NORMALIZED_RADIUS * 2"]),
   ("const MIN_DELTA_TIME", ["25.0"]),
+  ("const MAX_SLIDER_RADIUS", ["Self::NORMALIZED_RADIUS as f32 * 2.4"]),
+  ("const ASSUMED_SLIDER_RADIUS", ["Self::NORMALIZED_RADIUS as f32 * 1.8"]),
   ("opacity_at", ["0.0", "0.0", "1.0", "1.0", "0.0", "1.0", "0.0", "1.0"]),
   ("get_doubletapness", ["0.0", "0.0", "1.0", "1.0", "1.0", "2.0", "1.0", "1.0"]),
   ("set_distances", ["1.0", "2.5", "1.0", "2.5", "0.0"]),
@@ -56,6 +60,8 @@ theorem osu_aim_evaluator_literals_as_modelled : osuAimEvalLiterals = [
   ("const SLIDER_MULTIPLIER", ["1.35"]),
   ("const VELOCITY_CHANGE_MULTIPLIER", ["0.75"]),
   ("const WIGGLE_MULTIPLIER", ["1.02"]),
+  ("const RADIUS", ["OsuDifficultyObject::NORMALIZED_RADIUS"]),
+  ("const DIAMETER", ["OsuDifficultyObject::NORMALIZED_DIAMETER"]),
   ("calculate_initial_strain", ["0", "0.0"]),
   ("strain_value_at", []),
   ("evaluate_diff_of", ["1", "0", "0.0", "0.0", "0.0", "0.0", "0.0", "0.0", "1.25", "1.0", "3.0", "0.08", "0.92", "1.0", "3.0", "0.0", "2", "300.0", "400.0", "2", "3", "1.8", "110.0", "60.0", "3", "1.8", "110.0", "60.0", "0.0", "2.0", "1.25", "2.0"]),
@@ -81,22 +87,32 @@ theorem osu_flashlight_evaluator_literals_as_modelled : osuFlashlightEvalLiteral
 theorem osu_speed_evaluator_literals_as_modelled : osuSpeedEvalLiterals = [
   ("const SKILL_MULTIPLIER", ["1.46"]),
   ("const STRAIN_DECAY_BASE", ["0.3"]),
+  ("const REDUCED_SECTION_COUNT", ["5"]),
   ("const SINGLE_SPACING_THRESHOLD", ["OsuDifficultyObject::NORMALIZED_DIAMETER as f64 * 1.25"]),
   ("const MIN_SPEED_BONUS", ["200.0"]),
   ("const SPEED_BALANCING_FACTOR", ["40.0"]),
   ("const DIST_MULTIPLIER", ["0.9"]),
+  ("const HISTORY_TIME_MAX", ["5 * 1000"]),
+  ("const HISTORY_OBJECTS_MAX", ["32"]),
   ("const RHYTHM_OVERALL_MULTIPLIER", ["0.95"]),
   ("const RHYTHM_RATIO_MULTIPLIER", ["12.0"]),
+  ("const MIN_DELTA_TIME", ["25"]),
   ("calculate_initial_strain", ["0", "0.0"]),
   ("strain_value_at", []),
   ("evaluate_diff_of", ["0.0", "0", "0", "1.0", "0.93", "0.92", "1.0", "0.75", "2.0", "0.0", "0.0", "3.95", "0.0", "1.0", "1000.0"]),
-  ("evaluate_diff_of#2", ["0.0", "0.0", "0.3", "0.0", "0", "2", "1", "1", "1", "1", "1.0", "2.0", "0.5", "2.0", "8.0", "0.0", "1.0", "0.0", "1.0", "0.125", "0.3", "0.5", "0.125", "0.5", "1", "58.33", "0.24", "2.75", "3.0", "1", "1.0", "0.75", "0.6", "0.6", "4.0", "2.0"])
+  ("evaluate_diff_of#2", ["0.0", "0.0", "0.3", "0.0", "0", "2", "1", "1", "1", "1", "1.0", "2.0", "0.5", "2.0", "8.0", "0.0", "1.0", "0.0", "1.0", "0.125", "0.3", "0.5", "0.125", "0.5", "1", "58.33", "0.24", "2.75", "3.0", "1", "1.0", "0.75", "0.6", "0.6", "4.0", "2.0"]),
+  ("new_with_delta", ["1"]),
+  ("add_delta", ["1"]),
+  ("is_similar_polarity", ["2", "2"]),
+  ("is_default", ["0"]),
+  ("eq", [])
 ] := by decide
 
 /-- module constants and numeric literals (source order) of the code `Model/OsuSkill.lean` transcribes -/
 theorem step_functions_literals_as_modelled : utilStepsLiterals = [
   ("bpm_to_milliseconds", ["60_000.0", "4"]),
   ("milliseconds_to_bpm", ["60_000.0", "4"]),
+  ("logistic", ["1.0", "1.0"]),
   ("smoothstep", ["3.0", "2.0"]),
   ("smootherstep", ["6.0", "15.0", "10.0"])
 ] := by decide
@@ -209,6 +225,38 @@ theorem previous_lookup_spec (ds : List (DiffObj ℝ)) (hl : ListOK ds) (k : Nat
     rw [if_pos (by omega)]
     have : k - (n + 1) < ds.length := by omega
     simp [List.getElem?_eq_getElem this]
+
+/-! ## the rhythm evaluator -/
+
+/-- the `while` search for `rhythm_start` (bounded by `historical_note_count ≤ 32` iterations): afterwards
+`rhythm_start = 0` or `rhythm_start + 1 < historical_note_count`, and every index it stepped over has a
+`previous` object less than `HISTORY_TIME_MAX` ms before `curr` -/
+theorem rhythm_start_search_spec (ds : List (DiffObj ℝ)) (curr : DiffObj ℝ) (hnc : Nat) :
+    RsPassed ds curr hnc (rhythmStartSearch ds curr hnc hnc 0) := rhythmStart_spec ds curr hnc
+
+/-- every lookup `curr.previous(i - 1)` of `for i in (1..=rhythm_start).rev()` is in range (the `break` is
+dead) and `historical_note_count - i` (`usize`) never underflows — for every element of every well-formed
+list, of any length -/
+theorem rhythm_lookups_in_range (ds : List (DiffObj ℝ)) (hl : ListOK ds) (k : Nat) (curr : DiffObj ℝ)
+    (hc : ds[k]? = some curr) (hitWindow : ℝ) (st : RhState ℝ)
+    (h : (rhythmEvaluateFull ds curr hitWindow).2 = some st) : st.broke = false ∧ st.underflow = false :=
+  rhythmEvaluateFull_flags ds hl k curr hc hitWindow st h
+
+/-- for a hit window `≥ 0`: the rhythm value is `≥ 0`; when the loop ran, `rhythm_complexity_sum ≥ 0` (the
+radicand of the final `sqrt` is `≥ 4`), `start_ratio ≥ 0` (the radicand `effective_ratio · start_ratio` of the
+inner `sqrt` is `≥ 0`), every `island_count.count ≥ 1` (the denominators `count as f64`), and the two
+history objects satisfy the constructor's floors (`strain_time ≥ 25`: the denominators
+`max(prev_delta, curr_delta)`, `curr_delta`, `prev_delta`) -/
+theorem rhythm_evaluator_spec (ds : List (DiffObj ℝ)) (hl : ListOK ds) (curr : DiffObj ℝ) (hitWindow : ℝ)
+    (hhw : 0 ≤ hitWindow) :
+    0 ≤ rhythmEvaluate ds curr hitWindow
+      ∧ ∀ st, (rhythmEvaluateFull ds curr hitWindow).2 = some st → RhInv st :=
+  rhythmEvaluateFull_spec ds hl curr hhw
+
+/-- `effective_ratio ≥ 0` before the island logic; the `(1 − doubletapness·0.75)` factor is `≥ 0` -/
+theorem rhythm_factors_nonneg (eps c p hw : ℝ) (heps : 0 ≤ eps) (o : DiffObj ℝ) (n : Option (DiffObj ℝ)) :
+    0 ≤ rhythmEffectiveRatio eps c p ∧ (0 : ℝ) ≤ 1.0 - getDoubletapness o n hw * 0.75 :=
+  ⟨rhythmEffectiveRatio_nonneg heps c p, doubletapness_factor_nonneg o n hw⟩
 
 /-! ## the running strains (round-2 skeleton + the evaluators) -/
 
